@@ -1,4 +1,5 @@
 import GohtVerif.Model.Exec
+import GohtVerif.Proofs.C01
 /-! # C12 — Render is all-or-nothing and reports every failure
 
 `RenderObs` is what a destination writer (not goht's own buffer) observes: the returned error and
@@ -61,6 +62,34 @@ theorem failure_propagates_children_block (fuel : Nat) (c : Ctx) (t : Tok) (buf 
     (h : execKids fuel { prog := c.prog, env := env, own := own } kids buf = .error e) :
     execNode (fuel+1) c (.children t) buf = .error e := by
   simp [execNode, hc, h]
+
+/-- … nor by a `switch`: a failure inside the selected clause fails the list, the siblings behind the switch do not run. -/
+theorem failure_in_switch_clause (fuel : Nat) (c : Ctx) (o : Tok) (i : Int) (body rest ks : List Node) (buf : Buf) (e : Fail)
+    (v : GoStr) (hk : silentKind (trimSpace o.lit) = .sSwitch) (hb : hasSuffix (trimSpace o.lit) [123] = false)
+    (hv : c.env.str (trimSpace o.lit) = some v) (hs : selectClause v body = some ks)
+    (h : execKids fuel c ks buf = .error e) :
+    execKids (fuel+1) c (.silent o i body :: rest) buf = .error e := by
+  rw [GL.C01.switch_runs_selected_clause fuel c o i body rest ks buf v hk hb hv hs]
+  simp [h, bind, Except.bind]
+
+/-- … nor by a loop: when some iteration fails, the list fails with that cause (no later iteration and no later sibling runs:
+`List.foldlM` over `Except` stops at the first failure). -/
+theorem failure_in_loop (fuel : Nat) (c : Ctx) (o : Tok) (i : Int) (body rest : List Node) (buf : Buf) (e : Fail)
+    (x : GoStr) (vals : List GoStr)
+    (hk : silentKind (trimSpace o.lit) = .sFor) (hb : hasSuffix (trimSpace o.lit) [123] = false)
+    (hl : c.env.loops.find? (·.1 == trimSpace o.lit) = some (trimSpace o.lit, (x, vals)))
+    (h : vals.foldlM (fun buf v =>
+            execKids fuel { c with env := { c.env with strs := (x, v) :: c.env.strs } } body buf) buf = .error e) :
+    execKids (fuel+1) c (.silent o i body :: rest) buf = .error e := by
+  rw [GL.C01.for_runs_body_per_value fuel c o i body rest buf x vals hk hb hl]
+  simp [h, bind, Except.bind]
+
+/-- `foldlM` over `Except` stops at the first failure: once an iteration fails, the loop has failed -/
+theorem foldlM_stops_at_failure {α β ε} (f : β → α → Except ε β) (pre post : List α) (a : α) (b0 b1 : β) (e : ε)
+    (hpre : pre.foldlM f b0 = .ok b1) (ha : f b1 a = .error e) :
+    (pre ++ a :: post).foldlM f b0 = .error e := by
+  rw [List.foldlM_append, hpre]
+  simp [List.foldlM, ha, bind, Except.bind]
 
 -- PLANNED (flat layer): emitIR never lets an assignment to __err be followed by another one without an intervening `if __err != nil { return }`
 -- ASSUMPTION recorded: writers honour io.Writer (n < len(p) ⇒ err ≠ nil)
